@@ -39,9 +39,9 @@ func (r *Rand) Intn(n int) int {
 	return int(r.U64() % uint64(n))
 }
 
-func (r *Rand) Bool() bool        { return r.U64()&1 == 1 }
+func (r *Rand) Bool() bool           { return r.U64()&1 == 1 }
 func (r *Rand) Chance(p, q int) bool { return r.Intn(q) < p }
-func (r *Rand) Fork() *Rand       { return NewRand(r.U64()) }
+func (r *Rand) Fork() *Rand          { return NewRand(r.U64()) }
 
 func Pick[T any](r *Rand, xs []T) T { return xs[r.Intn(len(xs))] }
 
